@@ -23,6 +23,12 @@ fn seq_case(inp: &[u64]) -> Result<(), String> {
         if it.len() != n - k { return Err(format!("iter_from({}).len() = {} expected {}", k, it.len(), n - k)); }
         let got: Vec<usize> = it.collect();
         if got[..] != vals[k..] { return Err(format!("iter_from({}) mismatch", k)); }
+        // exact remaining-length hints at every step of the pass
+        let mut it = ef.iter_from(k);
+        for j in k..=n {
+            if it.size_hint() != (n - j, Some(n - j)) { return Err(format!("iter_from({}): size_hint() = {:?} after {} items, expected exactly {}", k, it.size_hint(), j - k, n - j)); }
+            if it.next().is_none() != (j == n) { return Err(format!("iter_from({}): next() at {}", k, j)); }
+        }
     }
     Ok(())
 }
